@@ -436,7 +436,7 @@ def ix_kinds(dim, N):
     return [k for k in ALL_KINDS if kind_dim(k) == dim and N in IX_RECIPES.get(k, {})]
 
 
-def make_interaction_case(rng, kind, N, reset=False, real_t=np.float64, stiffness=None, damping=None):
+def make_interaction_case(rng, kind, N, reset=False, real_t=np.float64, stiffness=None, damping=None, field_layout=None):
     """Body of ``kind`` with exactly ``N`` markers inside a unit-width box (dx = 1/nx from IX_POOL, random
     size of the other axes), random pose / velocities, random flow velocity field, zero Eulerian forcing
     field, wrapped in the matching SophT flow-interaction class.  All markers stay >= 3 cells away from
@@ -459,10 +459,24 @@ def make_interaction_case(rng, kind, N, reset=False, real_t=np.float64, stiffnes
     c = float(damping if damping is not None else -(10 ** rng.uniform(0, 1.5)))
     u = np.ascontiguousarray(rng.standard_normal((dim,) + shape).astype(real_t))
     f = np.zeros((dim,) + shape, dtype=real_t)
+    if field_layout == "interior":
+        # the solver's fields are the interiors of ghost-padded allocations (non-contiguous views): the interaction must read and
+        # write THESE arrays, not private contiguous copies of them
+        g = 2
+        pu = np.full((dim,) + tuple(n + 2 * g for n in shape), np.nan, dtype=real_t)
+        pf = np.full((dim,) + tuple(n + 2 * g for n in shape), np.nan, dtype=real_t)
+        I = (slice(None),) + tuple(slice(g, g + n) for n in shape)
+        pu[I] = u
+        pf[I] = 0
+        u, f = pu[I], pf[I]
+    elif field_layout == "fortran":
+        u, f = np.asfortranarray(u), np.asfortranarray(f)
     common = dict(eul_grid_forcing_field=f, eul_grid_velocity_field=u, virtual_boundary_stiffness_coeff=k,
                   virtual_boundary_damping_coeff=c, dx=real_t(dx), grid_dim=dim, real_t=real_t,
                   enable_eul_grid_forcing_reset=bool(reset), num_threads=2)
     meta = {"kind": kind, "shape": shape, "dx": dx, "N": N, "stiffness": k, "damping": c, "reset": bool(reset)}
+    if field_layout:
+        meta["field_layout"] = field_layout
     if kind in ROD_KINDS:
         n = rec["n_elems"]
         length = rng.uniform(0.6, 0.9) * 2 * span
